@@ -17,6 +17,8 @@ struct HeapBudgetExceeded : std::bad_alloc {
     const char *what() const noexcept override { return "sim: heap budget exceeded"; }
 };
 
+struct ClaimedCounts { uint64_t values = 0, objects = 0, frames = 0, points = 0, subframes = 0, channels = 0; }; // 4-byte values / container elements (frames, points, sub-frames, channels) the loaded header says the data section holds
+
 struct BudgetState {
     bool armed = false;
     uint64_t max_reads = 0, max_bytes = 0, max_heap = 0;
@@ -37,11 +39,11 @@ struct BudgetState {
     const char *soft_kind = "";
     char soft_site[256] = {0};
     uint64_t claimed_values = 0, claimed_objects = 0;
+    ClaimedCounts claimed;       // as the loaded header said when the budget tripped in the data section
     uint64_t samples = 0, samples_in_values = 0; // header/parameter phase, second half of the read budget: every 64th read is attributed by its call stack
 };
 
 // probes supplied by the executor for the object being loaded on this thread (nullptr: no explanation attempted)
-struct ClaimedCounts { uint64_t values = 0, objects = 0; }; // 4-byte values / container elements (frames, points, sub-frames, channels) the loaded header says the data section holds
 void budget_set_probes(int (*phase_fn)(), ClaimedCounts (*claim_fn)());
 void budget_arm(uint64_t file_size);
 BudgetState budget_disarm();
